@@ -22,7 +22,7 @@ Sources ==
            \* the prelude leaves on the stack a slice that is the ONLY owner of its buffer within one interpreter (no variable,
            \* no literal holds it), starts and ends off a byte boundary, with stale bits behind it: after a clone the two
            \* copies share it, the first one to append must copy, the last one is alone with the buffer
-           "|ff| swap bitstr-append", "|0| swap bitstr-append", "dup |f| swap bitstr-append" >>
+           "|ff| swap bitstr-append", "|0| swap bitstr-append", "dup |f| swap bitstr-append", "bitstr-not", "bitstr-not open-bitstr offset close-bitstr" >>
     [] Theme = "vars" ->
         << "5 var v", "v 1 + ! v", "[ 1 2 ] var w", "3 w push ! w", "{ 1 \"a\" } var m", "m 2 \"b\" insert ! m", "m \"a\" remove ! m",
            "w reverse ! w", "v w m", "drop" >>
@@ -33,7 +33,7 @@ Sources ==
            "|ff| emit", "|c3 d4| emit", "output", "1 print" >>
     [] Theme = "canvas" ->
         << "2 2 d2-resize", "1 d2-color!", "0 0 d2-data!", "1 1 d2-data!", "0 0 d2-data", "d2-clear", "7 d2-color!", "d2-width", "[ 5 6 7 ] d2-palette!",
-           "3 3 d2-resize", "0 d2-color!" >>
+           "3 3 d2-resize", "0 d2-color!", "d2-context print" >>
     [] Theme = "step" ->
         << "C:1 2 + 3 *", "C:: f 2 0 do I local x x drop loop ; f", "C:[ 1 2 ] foreach I loop", "N", "N", "R", "REC", "RUN", "9 var q", "q 1 + ! q" >>
 
